@@ -99,23 +99,58 @@ cospar = st.one_of(
 # ------------------------------------------------------------------ dates
 
 
+LEAP_DAYS = ["1992-07-01", "1993-07-01", "1994-07-01", "1996-01-01", "1997-07-01", "1999-01-01", "2006-01-01",
+             "2009-01-01", "2012-07-01", "2015-07-01", "2017-01-01"]  # UTC midnights that follow a leap second
+REAL_EOP = False  # set by the facet's setup: dates are then kept inside the IERS tables of the repository
+
+
 @st.composite
 def date_spec(draw, scale=None, lo_year=1985, hi_year=2045, sub=True):
-    """us = integer microseconds since 2000-01-01 on the scale's own clock; frac = sub-microsecond part"""
+    """us = integer microseconds since 2000-01-01 on the scale's own clock; frac = sub-microsecond part;
+    kind = class of the instant (uniform / round second / day boundary / turn of the year / day 366 /
+    leap-second midnight - the last one only with the real Earth-orientation tables)"""
+    if REAL_EOP:
+        lo_year, hi_year = max(lo_year, 1992), min(hi_year, 2017)
     lo = int((datetime(lo_year, 1, 1) - T0).total_seconds()) * 10**6
     hi = int((datetime(hi_year, 1, 1) - T0).total_seconds()) * 10**6
-    kind = draw(st.sampled_from(range(10)))
-    if kind == 0:  # round second
+    kinds = ["uniform"] * 5 + ["second", "midnight", "new-year", "day366"] + (["leap", "leap"] if REAL_EOP else ["uniform"])
+    kind = draw(st.sampled_from(kinds))
+    if kind == "second":
         us = draw(wint(lo // 10**6, hi // 10**6)) * 10**6
-    elif kind == 1:  # within a second of a day boundary
+    elif kind == "midnight":  # within a second of a day boundary
         us = draw(wint(lo // (86400 * 10**6), hi // (86400 * 10**6))) * 86400 * 10**6 + draw(
             wint(-10**6, 10**6))
+    elif kind == "new-year":  # within a few seconds of Jan 1st 0h
+        year = draw(st.integers(lo_year + 1, hi_year - 1))
+        us = int((datetime(year, 1, 1) - T0).total_seconds()) * 10**6 + draw(wint(-5 * 10**6, 5 * 10**6))
+    elif kind == "day366":  # Dec 31st of a leap year
+        year = draw(st.sampled_from([y for y in range(lo_year, hi_year) if y % 4 == 0 and (y % 100 or y % 400 == 0)]))
+        us = int((datetime(year, 12, 31) - T0).total_seconds()) * 10**6 + draw(wint(0, 86400 * 10**6 - 1))
+    elif kind == "leap":
+        day = datetime.strptime(draw(st.sampled_from(LEAP_DAYS)), "%Y-%m-%d")
+        us = int((day - T0).total_seconds()) * 10**6 + draw(wint(-3 * 10**6, 3 * 10**6))
     else:
         us = draw(wint(lo, hi))
     frac = 0.0
     if sub and draw(st.sampled_from(range(8))) == 0:
         frac = draw(go.uniform(0.0, 0.999))
-    return dict(us=us, frac=frac, scale=scale or draw(st.sampled_from(SCALES)))
+    return dict(us=us, frac=frac, scale=scale or draw(st.sampled_from(SCALES)), kind=kind)
+
+
+def label_mix(draw, epoch, n):
+    """time-scale labels of the n further dates of a message (None = the label of the epoch): one message in
+    four carries dates with other labels (same instants; the writers convert to the declared TIME_SYSTEM).
+    Not next to a leap second: the library documents that it does not handle them."""
+    if epoch.get("kind") == "leap" or n == 0 or draw(st.sampled_from(range(4))) != 0:
+        return [None] * n
+    return [draw(st.sampled_from([None] + SCALES)) for _ in range(n)]
+
+
+def relabel(date, label):
+    """the same instant carrying another time-scale label"""
+    if label is None or label == date.scale.name:
+        return date
+    return date.change_scale(label)
 
 
 def build_date(spec, offset_us=0):
@@ -253,7 +288,7 @@ def build_man(m, epoch_spec):
     from beyond.dates import timedelta
     from beyond.orbits.man import ContinuousMan, ImpulsiveMan
 
-    date = build_date(dict(epoch_spec, frac=0.0), m["dt_us"])
+    date = relabel(build_date(dict(epoch_spec, frac=0.0), m["dt_us"]), m.get("label"))
     dv = [x * 1e-3 for x in m["dv_mm"]]
     if m["kind"] == "impulsive":
         return ImpulsiveMan(date, dv, frame=m["frame"], comment=m["comment"])
@@ -284,6 +319,8 @@ def opm_spec(draw, jpl=False):
         user=draw(user_fields()),
         kep=draw(st.booleans()),
     )
+    for m, lab in zip(spec["mans"], label_mix(draw, epoch, len(spec["mans"]))):
+        m["label"] = lab
     if spec["klass"] == "Orbit":
         spec["propagator"] = draw(st.sampled_from([None, "Kepler", "Sgp4"]))
     return spec
@@ -315,11 +352,12 @@ def build_opm(spec):
 
 
 @st.composite
-def ephem_spec(draw):
-    frame = draw(st.sampled_from(FRAMES))
+def ephem_spec(draw, jpl=False):
+    frame = draw(st.sampled_from(sorted(JPL_FRAMES) if jpl else FRAMES))
     npts = draw(st.sampled_from([1, 1, 2, 3, 4, 5, 8, 12]))
     hyp = False
-    el = draw(go.elements(elliptic=True, hyperbolic=hyp, emax_ell=0.8, rp_range=(1.03, 10.0), mwind=0.5))
+    el = draw(go.elements(elliptic=True, hyperbolic=hyp, emax_ell=0.8, rp_range=(1.03, 10.0), mwind=0.5,
+                          bodies=(JPL_FRAMES[frame] if jpl else "Earth",)))
     # us, >= 1 ms apart; one ephemeris in five spans days
     span = 3 * 86400 * 1000 if draw(st.sampled_from(range(5))) == 0 else 600 * 1000
     steps = [0] + [draw(wint(1, span)) * 1000 for _ in range(npts - 1)]
@@ -336,9 +374,13 @@ def ephem_spec(draw):
         with_cov = sorted(draw(st.sets(st.integers(0, npts - 1), max_size=npts)))
     covs = {str(i): draw(cov_spec(frame, FRAMES)) for i in with_cov}
     method = draw(st.sampled_from(["lagrange", "lagrange", "linear"]))
+    epoch = draw(date_spec(lo_year=2001, hi_year=2019) if jpl else date_spec())
     return dict(
         frame=frame, el=el, steps_us=steps, nus=nus, covs=covs,
-        epoch=draw(date_spec()),
+        epoch=epoch,
+        labels=label_mix(draw, epoch, npts),
+        # order in which the points are handed to Ephem (it sorts them): a permutation of range(npts)
+        order_in=draw(st.permutations(range(npts))) if draw(st.sampled_from(range(3))) == 0 else list(range(npts)),
         method=method, order=draw(st.integers(1, 10)),
         name=draw(opt(text(14))), cospar_id=draw(opt(cospar)),
         form=draw(st.sampled_from(["cartesian", "cartesian", "cartesian", "keplerian", "spherical"])),
@@ -346,10 +388,11 @@ def ephem_spec(draw):
 
 
 @st.composite
-def oem_spec(draw):
+def oem_spec(draw, jpl=False):
     n = draw(st.sampled_from([1, 1, 1, 2]))
-    return dict(type="oem", ephems=[draw(ephem_spec()) for _ in range(n)],
-                as_list=True if n > 1 else draw(st.booleans()))
+    return dict(type="oem", ephems=[draw(ephem_spec(jpl=jpl)) for _ in range(n)],
+                as_list=True if n > 1 else draw(st.booleans()),
+                container=draw(st.sampled_from(["list", "list", "tuple"])))
 
 
 def build_ephem(spec):
@@ -360,11 +403,12 @@ def build_ephem(spec):
     for k, (step, nu) in enumerate(zip(spec["steps_us"], spec["nus"])):
         t += step
         el = dict(spec["el"], nu=nu)
-        date = build_date(spec["epoch"], t)
+        date = relabel(build_date(spec["epoch"], t), (spec.get("labels") or [None] * (k + 1))[k])
         sv = StateVector(go.cart_of(el), date, "cartesian", spec["frame"])
         if str(k) in spec["covs"]:
             attach_cov(sv, spec["covs"][str(k)])
         pts.append(sv)
+    pts = [pts[k] for k in spec.get("order_in", range(len(pts)))]
     eph = Ephem(pts, method=spec["method"], order=spec["order"])
     if spec["name"] is not None:
         eph.name = spec["name"]
@@ -379,7 +423,7 @@ def build_oem(spec):
     ephs = [build_ephem(e) for e in spec["ephems"]]
     if len(ephs) == 1 and not spec["as_list"]:
         return ephs[0]
-    return ephs
+    return tuple(ephs) if spec.get("container") == "tuple" else ephs
 
 
 # ------------------------------------------------------------------ mean elements (OMM)
@@ -536,7 +580,10 @@ def tdm_spec(draw):
             ms.append(m)
     if not ms:
         ms.append(dict(kind=kinds[0], path=0, dt_us=0, value=0.5))
-    return dict(type="tdm", paths=paths, measures=ms, epoch=draw(date_spec()))
+    epoch = draw(date_spec())
+    for m, lab in zip(ms, label_mix(draw, epoch, len(ms))):
+        m["label"] = lab
+    return dict(type="tdm", paths=paths, measures=ms, epoch=epoch)
 
 
 def build_tdm(spec):
@@ -545,8 +592,8 @@ def build_tdm(spec):
     out = M.MeasureSet()
     for m in spec["measures"]:
         cls = getattr(M, m["kind"])
-        out.append(cls(spec["paths"][m["path"] % len(spec["paths"])], build_date(spec["epoch"], m["dt_us"]),
-                       m["value"]))
+        out.append(cls(spec["paths"][m["path"] % len(spec["paths"])],
+                       relabel(build_date(spec["epoch"], m["dt_us"]), m.get("label")), m["value"]))
     return out
 
 
